@@ -130,6 +130,14 @@ def check_c14(tier, t0):
         rest = [c for c in convs if len(c["sent"]) > 2]
         rnd.shuffle(rest)
         convs = small + rest[:70]
+    else:
+        # the model was checked over all conversations of up to 3 requests; replayed against real daemon processes:
+        # all of up to 2 requests and a seeded 1200 of the longer ones (one daemon process per conversation)
+        rnd = random.Random(seed())
+        small = [c for c in convs if len(c["sent"]) <= 3]
+        rest = [c for c in convs if len(c["sent"]) > 3]
+        rnd.shuffle(rest)
+        convs = small + rest[:1200]
     if not convs:
         raise MachineryError("Daemon.tla exported no conversation")
     with ThreadPoolExecutor(16) as ex:
